@@ -3,6 +3,8 @@ CONSTANTS
     ChunkTab = 0
     PrefetchOn = FALSE
     Lens = {1}
+    Offs = {0, 1, 2, 3, 4, 5, 6, 7, 8, 9, 10}
+    EvictOffs = {0, 1, 2, 3, 4, 5, 6, 7, 8, 9, 10}
     LocateOK = TRUE
     DiscardOK = TRUE
     InnerSkipOK = TRUE
